@@ -175,6 +175,8 @@ def run(ctx):
             # perturb numpy's global RNG differently before every call
             np.random.seed(int(rs.randint(0, 2 ** 31 - 1)))
             np.random.rand(int(rs.randint(1, 50)))
+            if k % 2 == 0:
+                np.random.randn(2 * int(rs.randint(0, 4)) + 1)   # an odd number of normal draws leaves a cached Gaussian in the state
             t = record_call(samp, dict(args), memo, 120)
             k += 1
             t["id"] = "call%d" % k
